@@ -645,20 +645,6 @@ Theorem raw_extrema_total pos sigp :
   exists r, raw_extrema pos sigp = Ok r.
 Proof. intros. eexists. apply raw_extrema_eq; assumption. Qed.
 
-Theorem raw_extrema_degenerate pos sigp :
-  length sigp = length pos ->
-  (raw_extrema pos sigp = Err EDegenerate <->
-   rises_of (events 0 pos) = [] \/ decays_of (events 0 pos) = []).
-Proof.
-  intros Hlen.
-  destruct (rises_of (events 0 pos)) as [|r rs] eqn:Er.
-  - unfold raw_extrema. cbv zeta. rewrite Er. split; [left; reflexivity|reflexivity].
-  - destruct (decays_of (events 0 pos)) as [|d ds] eqn:Ed.
-    + unfold raw_extrema. cbv zeta. rewrite Er, Ed. split; [right; reflexivity|reflexivity].
-    + rewrite raw_extrema_eq; [|exact Hlen|rewrite Er; discriminate|rewrite Ed; discriminate].
-      split; [discriminate|intros [H|H]; discriminate].
-Qed.
-
 Lemma raw_extrema_ok_inv pos sigp peaks troughs :
   raw_extrema pos sigp = Ok (peaks, troughs) -> length sigp = length pos ->
   peaks = hw_peaks pos sigp /\ troughs = hw_troughs pos sigp.
@@ -746,4 +732,580 @@ Proof.
   intros Hwf ->. induction pre as [|e pre IH].
   - cbn [app wf_ev] in Hwf. destruct Hwf as (H1 & H2 & _). split; assumption.
   - apply IH. exact (wf_ev_tl _ _ Hwf).
+Qed.
+
+(* ------------------------------------------------------------------------- *)
+(* D. Boundary filter and first-extremum trimming                            *)
+(* ------------------------------------------------------------------------- *)
+
+Definition in_bounds (n b z : Z) : bool := ((b <? z) && (z <? n - b))%Z.
+Definition shift (padn : nat) (x : nat) : Z := (Z.of_nat x - Z.of_nat padn)%Z.
+
+Lemma unpad_filter_alt padn n b xs :
+  unpad_filter padn n b xs = filter (in_bounds n b) (map (shift padn) xs).
+Proof. reflexivity. Qed.
+
+Lemma in_bounds_spec n b z : in_bounds n b z = true <-> (b < z < n - b)%Z.
+Proof. unfold in_bounds. rewrite andb_true_iff, !Z.ltb_lt. reflexivity. Qed.
+
+(* D1 *)
+Theorem unpad_filter_In padn n b xs z :
+  In z (unpad_filter padn n b xs) <->
+  exists x, In x xs /\ z = (Z.of_nat x - Z.of_nat padn)%Z /\ (b < z < n - b)%Z.
+Proof.
+  rewrite unpad_filter_alt, filter_In, in_map_iff, in_bounds_spec. unfold shift. split.
+  - intros ((x & E & Hx) & Hb). exists x. split; [exact Hx|]. split; [symmetry; exact E|exact Hb].
+  - intros (x & Hx & E & Hb). split; [|exact Hb]. exists x. split; [symmetry; exact E|exact Hx].
+Qed.
+
+Lemma ssorted_impl {A} (R1 R2 : A -> A -> Prop) l :
+  (forall x y, R1 x y -> R2 x y) -> StronglySorted R1 l -> StronglySorted R2 l.
+Proof.
+  intros HR. induction 1 as [|x t Hs IH Hf]; constructor; [exact IH|].
+  eapply Forall_impl; [|exact Hf]. intros y. apply HR.
+Qed.
+
+Theorem unpad_filter_sorted padn n b xs :
+  StronglySorted lt xs -> StronglySorted Z.lt (unpad_filter padn n b xs).
+Proof.
+  intros H. rewrite unpad_filter_alt, filter_map_comm. apply ssorted_map_filter.
+  eapply ssorted_impl; [|exact H]. intros x y Hxy. unfold shift. lia.
+Qed.
+
+(* merged lists over Z *)
+Fixpoint wfz (m : list (Z * bool)) : Prop :=
+  match m with
+  | (a, k) :: t => match t with
+                   | (b, k') :: _ => (a < b)%Z /\ k' = negb k /\ wfz t
+                   | [] => True
+                   end
+  | [] => True
+  end.
+
+Lemma wfz_tl e t : wfz (e :: t) -> wfz t.
+Proof. destruct e as [a k]. cbn [wfz]. destruct t as [|[b k'] t']; [intros; exact I|]. intros (_ & _ & H); exact H. Qed.
+
+Lemma wfz_lt a k t : wfz ((a, k) :: t) -> forall e, In e t -> (a < fst e)%Z.
+Proof.
+  revert a k; induction t as [|[b k'] t' IH]; intros a k H e He; [destruct He|].
+  cbn [wfz] in H. destruct H as (Hab & _ & Ht). destruct He as [<-|He]; [exact Hab|].
+  specialize (IH b k' Ht e He). lia.
+Qed.
+
+Definition mshift (padn : nat) (m : list (nat * bool)) : list (Z * bool) :=
+  map (fun e => (shift padn (fst e), snd e)) m.
+Definition mfilter (n b : Z) (m : list (Z * bool)) : list (Z * bool) :=
+  filter (fun e => in_bounds n b (fst e)) m.
+
+Lemma wfz_mshift padn m : wf_ev m -> wfz (mshift padn m).
+Proof.
+  induction m as [|[a k] t IH]; intros H; [exact I|].
+  specialize (IH (wf_ev_tl _ _ H)).
+  destruct t as [|[c k'] t']; [exact I|].
+  cbn [wf_ev] in H. destruct H as (Hac & Hk & _).
+  unfold mshift in *. cbn [map fst snd] in *. cbn [wfz]. split; [unfold shift; lia|]. split; [exact Hk|exact IH].
+Qed.
+
+Lemma filter_all_false {A} (p : A -> bool) l : (forall x, In x l -> p x = false) -> filter p l = [].
+Proof.
+  induction l as [|x t IH]; intros H; [reflexivity|]. cbn [filter].
+  rewrite (H x (or_introl eq_refl)). apply IH. intros y Hy. apply H. right; exact Hy.
+Qed.
+
+(* the boundary filter keeps a contiguous stretch, hence alternation *)
+Lemma wfz_mfilter n b m : wfz m -> wfz (mfilter n b m).
+Proof.
+  induction m as [|[a k] t IH]; intros H; [exact I|].
+  specialize (IH (wfz_tl _ _ H)). unfold mfilter in *. cbn [filter fst].
+  destruct (in_bounds n b a) eqn:Ea; [|exact IH].
+  destruct t as [|[c k'] t']; [exact I|].
+  cbn [filter fst] in *. destruct (in_bounds n b c) eqn:Ec.
+  - cbn [wfz] in H |- *. destruct H as (Hac & Hk & _). split; [exact Hac|]. split; [exact Hk|exact IH].
+  - rewrite filter_all_false; [exact I|].
+    intros [z kz] Hz. cbn [fst].
+    cbn [wfz] in H. destruct H as (Hac & _ & Ht). assert (Hcz := wfz_lt _ _ _ Ht _ Hz). cbn [fst] in Hcz.
+    apply in_bounds_spec in Ea.
+    destruct (in_bounds n b z) eqn:Ez; [|reflexivity]. apply in_bounds_spec in Ez.
+    assert (Hc : in_bounds n b c = true) by (apply in_bounds_spec; lia). congruence.
+Qed.
+
+Lemma sel_mfilter_mshift padn n b k m :
+  sel k (mfilter n b (mshift padn m)) = unpad_filter padn n b (sel k m).
+Proof.
+  rewrite unpad_filter_alt. unfold sel, mfilter, mshift.
+  induction m as [|[a ka] t IH]; [reflexivity|].
+  cbn [map filter fst snd].
+  destruct (in_bounds n b (shift padn a)) eqn:Ea; cbn [filter snd]; destruct (Bool.eqb ka k);
+    cbn [map filter fst]; rewrite ?Ea, IH; reflexivity.
+Qed.
+
+(* one possible extra "first kind" extremum at the end *)
+Fixpoint inter' (ps ts : list Z) : Prop :=
+  match ps with
+  | [] => ts = []
+  | p :: ps' => match ts with
+                | [] => ps' = []
+                | t :: ts' => (p < t)%Z /\ (match ps' with [] => True | p' :: _ => (t < p')%Z end) /\ inter' ps' ts'
+                end
+  end.
+
+Lemma wfz_inter' k n : forall mm, length mm <= n -> wfz mm ->
+  (forall z kz rest, mm = (z, kz) :: rest -> kz = k) ->
+  inter' (sel k mm) (sel (negb k) mm).
+Proof.
+  induction n as [|n IH]; intros mm Hlen Hwf Hhd.
+  - destruct mm; [reflexivity|cbn [length] in Hlen; lia].
+  - destruct mm as [|[p kp] rest]; [reflexivity|].
+    rewrite (Hhd p kp rest eq_refl) in *. clear Hhd.
+    rewrite sel_cons_same, sel_cons_other.
+    destruct rest as [|[t k'] rest']; [reflexivity|].
+    cbn [wfz] in Hwf. destruct Hwf as (Hpt & -> & Hwf).
+    rewrite sel_cons_other', sel_cons_same. cbn [inter'].
+    split; [exact Hpt|].
+    destruct rest' as [|[p' k''] rest'']; [split; [exact I|reflexivity]|].
+    destruct Hwf as (Htp & Hk & Hwf'). rewrite negb_involutive in Hk. subst k''.
+    split.
+    + rewrite sel_cons_same. exact Htp.
+    + apply IH; [cbn [length] in *; lia|exact Hwf'|].
+      intros z kz r E. inversion E. reflexivity.
+Qed.
+
+Lemma last_cons2 (a b : Z) l : lastZ (a :: b :: l) = lastZ (b :: l).
+Proof. reflexivity. Qed.
+
+Lemma inter'_trim ps : forall ts, inter' ps ts -> ts <> [] ->
+  interleaved (if (lastZ ts <? lastZ ps)%Z then removelast ps else ps) ts.
+Proof.
+  induction ps as [|p ps' IH]; intros ts H Hne.
+  - cbn [inter'] in H. congruence.
+  - destruct ts as [|t ts']; [congruence|]. cbn [inter'] in H. destruct H as (Hpt & Hhd & Hin).
+    destruct ts' as [|t' ts''].
+    + destruct ps' as [|p' ps'']; cbn [inter'] in Hin.
+      * unfold lastZ. cbn [last]. assert (E : (t <? p)%Z = false) by (apply Z.ltb_ge; lia).
+        rewrite E. cbn [interleaved]. auto.
+      * subst ps''. unfold lastZ. cbn [last]. assert (E : (t <? p')%Z = true) by (apply Z.ltb_lt; lia).
+        rewrite E. cbn [removelast interleaved]. auto.
+    + destruct ps' as [|p' ps'']; [cbn [inter'] in Hin; discriminate|].
+      rewrite !last_cons2. specialize (IH (t' :: ts'') Hin ltac:(discriminate)).
+      destruct (lastZ (t' :: ts'') <? lastZ (p' :: ps''))%Z.
+      * change (removelast (p :: p' :: ps'')) with (p :: removelast (p' :: ps'')).
+        cbn [interleaved]. split; [exact Hpt|]. split; [|exact IH].
+        destruct ps'' as [|p'' ps''']; [exact I|]. cbn [removelast]. exact Hhd.
+      * cbn [interleaved]. split; [exact Hpt|]. split; [exact Hhd|exact IH].
+Qed.
+
+Lemma removelast_incl {A} (l : list A) : incl (removelast l) l.
+Proof.
+  induction l as [|x [|y t] IH]; [intros ? []|intros ? []|].
+  change (removelast (x :: y :: t)) with (x :: removelast (y :: t)).
+  intros z [->|Hz]; [left; reflexivity|right; apply IH, Hz].
+Qed.
+
+Lemma tl_incl {A} (l : list A) : incl (tl l) l.
+Proof. destruct l; [intros ? []|intros z Hz; right; exact Hz]. Qed.
+
+(* trim_pair on the two projections of an alternating merged list *)
+Lemma trim_pair_spec k mm firsts' others' :
+  wfz mm -> trim_pair (sel k mm) (sel (negb k) mm) = Ok (firsts', others') ->
+  interleaved firsts' others' /\ incl firsts' (sel k mm) /\ incl others' (sel (negb k) mm).
+Proof.
+  intros Hwf H.
+  (* normalise: mm' starts with kind k, same firsts, others' = its others *)
+  assert (Hn : exists mm', wfz mm' /\ (forall z kz rest, mm' = (z, kz) :: rest -> kz = k) /\
+             sel k mm' = sel k mm /\ incl (sel (negb k) mm') (sel (negb k) mm) /\
+             sel (negb k) mm' <> [] /\
+             Ok (firsts', others') =
+             Ok (if (lastZ (sel (negb k) mm') <? lastZ (sel k mm'))%Z then removelast (sel k mm') else sel k mm',
+                 sel (negb k) mm')).
+  { unfold trim_pair in H.
+    destruct (sel k mm) as [|f0 fs] eqn:Ef; [discriminate|].
+    destruct (sel (negb k) mm) as [|o0 os] eqn:Eo; [discriminate|].
+    destruct mm as [|[z kz] rest]; [discriminate|].
+    destruct (Bool.eqb kz k) eqn:Ek.
+    - apply eqb_prop in Ek. subst kz. rewrite sel_cons_same in Ef. rewrite sel_cons_other in Eo.
+      inversion Ef; subst z fs.
+      assert (Hlt : (f0 < o0)%Z).
+      { apply (wfz_lt _ _ _ Hwf (o0, negb k)). apply sel_In. rewrite Eo. left; reflexivity. }
+      assert (E : (o0 <? f0)%Z = false) by (apply Z.ltb_ge; lia). rewrite E in H.
+      exists ((f0, k) :: rest). split; [exact Hwf|]. split; [intros ? ? ? E'; inversion E'; reflexivity|].
+      rewrite sel_cons_same, sel_cons_other, Eo. split; [reflexivity|]. split; [apply incl_refl|].
+      split; [discriminate|]. rewrite <- H. reflexivity.
+    - apply eqb_false_iff in Ek. assert (kz = negb k) by (destruct kz, k; try reflexivity; exfalso; apply Ek; reflexivity). subst kz.
+      rewrite sel_cons_other' in Ef. rewrite sel_cons_same in Eo. inversion Eo; subst z os.
+      assert (Hlt : (o0 < f0)%Z).
+      { apply (wfz_lt _ _ _ Hwf (f0, k)). apply sel_In. rewrite Ef. left; reflexivity. }
+      apply Z.ltb_lt in Hlt. rewrite Hlt in H. cbn [tl] in H.
+      destruct (sel (negb k) rest) as [|o1 os'] eqn:Eo1; [discriminate|].
+      exists rest. split; [exact (wfz_tl _ _ Hwf)|]. split.
+      { intros z kz r E'. subst rest. cbn [wfz] in Hwf. destruct Hwf as (_ & Hk & _).
+        rewrite Hk. apply negb_involutive. }
+      rewrite Ef, Eo1. split; [reflexivity|]. split; [intros y Hy; right; exact Hy|].
+      split; [discriminate|]. rewrite <- H. reflexivity. }
+  destruct Hn as (mm' & Hwf' & Hhd & Ef & Hincl & Hne & E).
+  inversion E; subst firsts' others'. clear E.
+  assert (Hi := wfz_inter' k (length mm') mm' (le_n _) Hwf' Hhd).
+  split; [exact (inter'_trim _ _ Hi Hne)|]. split; [|exact Hincl].
+  rewrite <- Ef. destruct (lastZ (sel (negb k) mm') <? lastZ (sel k mm'))%Z; [apply removelast_incl|apply incl_refl].
+Qed.
+
+Lemma pad_length n sig : length (pad n sig) = length sig + 2 * n.
+Proof. unfold pad. rewrite !app_length, !repeat_length. lia. Qed.
+
+Definition xn (x : ext_in) : Z := Z.of_nat (length (x_raw x)).
+Definition xsigp (x : ext_in) : list PrimFloat.float := pad (x_padn x) (x_raw x).
+
+Lemma find_extrema_unfold x pk tr :
+  raw_extrema (x_pos x) (xsigp x) = Ok (pk, tr) ->
+  find_extrema x = trim (x_first x) (unpad_filter (x_padn x) (xn x) (x_boundary x) pk)
+                                    (unpad_filter (x_padn x) (xn x) (x_boundary x) tr).
+Proof. intros H. unfold find_extrema, xsigp in *. rewrite H. reflexivity. Qed.
+
+Lemma find_extrema_ok_raw x r :
+  find_extrema x = Ok r -> exists pk tr, raw_extrema (x_pos x) (xsigp x) = Ok (pk, tr).
+Proof.
+  unfold find_extrema, xsigp. destruct (raw_extrema (x_pos x) (pad (x_padn x) (x_raw x))) as [[pk tr]|e]; [|discriminate].
+  intros _. exists pk, tr. reflexivity.
+Qed.
+
+(* the boundary-filtered extrema are the two projections of one alternating list *)
+Lemma filtered_merged x pk tr :
+  raw_extrema (x_pos x) (xsigp x) = Ok (pk, tr) ->
+  length (x_raw x) + 2 * x_padn x = length (x_pos x) ->
+  exists mm, wfz mm /\
+    unpad_filter (x_padn x) (xn x) (x_boundary x) pk = sel true mm /\
+    unpad_filter (x_padn x) (xn x) (x_boundary x) tr = sel false mm.
+Proof.
+  intros Hraw Hlen.
+  assert (Hl : length (xsigp x) = length (x_pos x)) by (unfold xsigp; rewrite pad_length; exact Hlen).
+  destruct (raw_extrema_alternate _ _ _ _ Hraw Hl) as (_ & _ & m & Hwf & Hp & Ht).
+  rewrite sel_true_filter in Hp. rewrite sel_false_filter in Ht. subst pk tr.
+  exists (mfilter (xn x) (x_boundary x) (mshift (x_padn x) m)).
+  split; [apply wfz_mfilter, wfz_mshift, Hwf|]. rewrite !sel_mfilter_mshift. split; reflexivity.
+Qed.
+
+(* D2, FPeak *)
+Theorem find_extrema_peak_first x peaks troughs :
+  find_extrema x = Ok (peaks, troughs) -> x_first x = FPeak ->
+  length (x_raw x) + 2 * x_padn x = length (x_pos x) ->
+  interleaved peaks troughs /\
+  (forall z, In z peaks \/ In z troughs ->
+             (x_boundary x < z < Z.of_nat (length (x_raw x)) - x_boundary x)%Z) /\
+  exists pk tr, raw_extrema (x_pos x) (pad (x_padn x) (x_raw x)) = Ok (pk, tr) /\
+    incl peaks (unpad_filter (x_padn x) (Z.of_nat (length (x_raw x))) (x_boundary x) pk) /\
+    incl troughs (unpad_filter (x_padn x) (Z.of_nat (length (x_raw x))) (x_boundary x) tr).
+Proof.
+  intros H Hf Hlen. destruct (find_extrema_ok_raw _ _ H) as (pk & tr & Hraw).
+  rewrite (find_extrema_unfold _ _ _ Hraw), Hf in H. cbn [trim] in H.
+  destruct (filtered_merged _ _ _ Hraw Hlen) as (mm & Hwf & Ep & Et).
+  rewrite Ep, Et in H. destruct (trim_pair_spec true mm _ _ Hwf H) as (Hi & Hip & Hit).
+  cbn [negb] in Hit. rewrite <- Ep in Hip. rewrite <- Et in Hit.
+  split; [exact Hi|]. split.
+  - intros z [Hz|Hz]; [apply Hip in Hz|apply Hit in Hz];
+      apply unpad_filter_In in Hz as (_ & _ & _ & Hb); exact Hb.
+  - exists pk, tr. split; [exact Hraw|]. split; assumption.
+Qed.
+
+(* D2, FTrough *)
+Theorem find_extrema_trough_first x peaks troughs :
+  find_extrema x = Ok (peaks, troughs) -> x_first x = FTrough ->
+  length (x_raw x) + 2 * x_padn x = length (x_pos x) ->
+  interleaved troughs peaks /\
+  (forall z, In z peaks \/ In z troughs ->
+             (x_boundary x < z < Z.of_nat (length (x_raw x)) - x_boundary x)%Z) /\
+  exists pk tr, raw_extrema (x_pos x) (pad (x_padn x) (x_raw x)) = Ok (pk, tr) /\
+    incl peaks (unpad_filter (x_padn x) (Z.of_nat (length (x_raw x))) (x_boundary x) pk) /\
+    incl troughs (unpad_filter (x_padn x) (Z.of_nat (length (x_raw x))) (x_boundary x) tr).
+Proof.
+  intros H Hf Hlen. destruct (find_extrema_ok_raw _ _ H) as (pk & tr & Hraw).
+  rewrite (find_extrema_unfold _ _ _ Hraw), Hf in H. cbn [trim] in H.
+  destruct (filtered_merged _ _ _ Hraw Hlen) as (mm & Hwf & Ep & Et).
+  rewrite Ep, Et in H.
+  destruct (trim_pair (sel false mm) (sel true mm)) as [[f' o']|e] eqn:Etp; [|discriminate].
+  cbn [bind fst snd] in H. inversion H; subst o' f'. clear H.
+  destruct (trim_pair_spec false mm _ _ Hwf Etp) as (Hi & Hit & Hip).
+  cbn [negb] in Hip. rewrite <- Ep in Hip. rewrite <- Et in Hit.
+  split; [exact Hi|]. split.
+  - intros z [Hz|Hz]; [apply Hip in Hz|apply Hit in Hz];
+      apply unpad_filter_In in Hz as (_ & _ & _ & Hb); exact Hb.
+  - exists pk, tr. split; [exact Hraw|]. split; assumption.
+Qed.
+
+(* D2, FNone / FInvalid *)
+Theorem find_extrema_none x pk tr :
+  raw_extrema (x_pos x) (pad (x_padn x) (x_raw x)) = Ok (pk, tr) -> x_first x = FNone ->
+  find_extrema x = Ok (unpad_filter (x_padn x) (Z.of_nat (length (x_raw x))) (x_boundary x) pk,
+                       unpad_filter (x_padn x) (Z.of_nat (length (x_raw x))) (x_boundary x) tr).
+Proof. intros Hraw Hf. rewrite (find_extrema_unfold _ _ _ Hraw), Hf. reflexivity. Qed.
+
+Theorem find_extrema_invalid x pk tr :
+  raw_extrema (x_pos x) (pad (x_padn x) (x_raw x)) = Ok (pk, tr) -> x_first x = FInvalid ->
+  find_extrema x = Err EValue.
+Proof. intros Hraw Hf. rewrite (find_extrema_unfold _ _ _ Hraw), Hf. reflexivity. Qed.
+
+Theorem find_extrema_raw_err x e :
+  raw_extrema (x_pos x) (pad (x_padn x) (x_raw x)) = Err e -> find_extrema x = Err e.
+Proof. intros H. unfold find_extrema. rewrite H. reflexivity. Qed.
+
+(* with FNone the two lists still are the projections of one alternating sequence *)
+Theorem find_extrema_none_alternate x peaks troughs :
+  find_extrema x = Ok (peaks, troughs) -> x_first x = FNone ->
+  length (x_raw x) + 2 * x_padn x = length (x_pos x) ->
+  exists mm, wfz mm /\ peaks = sel true mm /\ troughs = sel false mm.
+Proof.
+  intros H Hf Hlen. destruct (find_extrema_ok_raw _ _ H) as (pk & tr & Hraw).
+  rewrite (find_extrema_unfold _ _ _ Hraw), Hf in H. cbn [trim] in H.
+  destruct (filtered_merged _ _ _ Hraw Hlen) as (mm & Hwf & Ep & Et).
+  inversion H; subst. exists mm. split; [exact Hwf|]. split; assumption.
+Qed.
+
+(* ------------------------------------------------------------------------- *)
+(* C2 / C3. Each raw extremum is the first arg-max (arg-min) of a closed      *)
+(* half-wave, and conversely                                                  *)
+(* ------------------------------------------------------------------------- *)
+
+Lemma negb_neq (k : bool) : k = negb k -> False.
+Proof. destruct k; discriminate. Qed.
+
+Theorem halfwave_iff pos k a b :
+  closed_halfwave pos k a b <-> In (a, k, b) (pairs (events 0 pos)).
+Proof.
+  split.
+  - intros (Hab & Hb & Ha & Hmid & HSb).
+    assert (Hina : In (a, k) (events 0 pos)).
+    { apply events_in. rewrite Nat.sub_0_r. split; [lia|]. split; [lia|]. split; [exact Ha|]. apply Hmid. lia. }
+    assert (Hinb : In (b, negb k) (events 0 pos)).
+    { apply events_in. rewrite Nat.sub_0_r. split; [lia|]. split; [lia|]. split; [|exact HSb].
+      rewrite negb_involutive. apply Hmid. lia. }
+    apply in_split in Hina as (pre & rest & E).
+    destruct rest as [|[c k''] post].
+    + exfalso. rewrite E in Hinb. apply in_app_or in Hinb as [Hp|[Hp|[]]].
+      * assert (Hs := events_sorted 0 pos). rewrite E in Hs.
+        assert (H := ssorted_app_lt _ _ _ Hs (b, negb k) (a, k) Hp (or_introl eq_refl)). cbn [fst] in H. lia.
+      * inversion Hp. lia.
+    + destruct (events_split_adjacent _ _ _ _ _ _ _ _ E) as (-> & Hac & Hbits).
+      assert (Hinc : In (c, negb k) (events 0 pos)).
+      { rewrite E. apply in_or_app. right. right. left. reflexivity. }
+      apply events_in in Hinc as (_ & _ & _ & HSc). rewrite Nat.sub_0_r in HSc.
+      assert (c = b).
+      { destruct (Nat.lt_trichotomy c b) as [Hlt|[Heq|Hgt]]; [exfalso|exact Heq|exfalso].
+        - rewrite (Hmid (S c) ltac:(lia)) in HSc. exact (negb_neq _ HSc).
+        - specialize (Hbits (S b) ltac:(lia)). rewrite Nat.sub_0_r in Hbits. rewrite Hbits in HSb.
+          exact (negb_neq _ HSb). }
+      subst c. apply pairs_in. exists pre, (negb k), post. exact E.
+  - intros Hin. destruct (pairs_bounds _ _ _ _ Hin) as (Hab & Hb).
+    apply pairs_in in Hin as (pre & k' & post & E).
+    destruct (events_split_adjacent _ _ _ _ _ _ _ _ E) as (-> & _ & Hbits).
+    assert (Hina : In (a, k) (events 0 pos)).
+    { rewrite E. apply in_or_app. right. left. reflexivity. }
+    assert (Hinb : In (b, negb k) (events 0 pos)).
+    { rewrite E. apply in_or_app. right. right. left. reflexivity. }
+    apply events_in in Hina as (_ & _ & Ha & _). rewrite Nat.sub_0_r in Ha.
+    apply events_in in Hinb as (_ & _ & _ & HSb). rewrite Nat.sub_0_r in HSb.
+    split; [exact Hab|]. split; [exact Hb|]. split; [exact Ha|]. split; [|exact HSb].
+    intros j Hj. specialize (Hbits j Hj). rewrite Nat.sub_0_r in Hbits. exact Hbits.
+Qed.
+
+Definition first_arg (k : bool) : list PrimFloat.float -> nat -> nat -> nat -> Prop :=
+  if k then first_argmax else first_argmin.
+
+Lemma first_argmax_unique raw a b x y : first_argmax raw a b x -> first_argmax raw a b y -> x = y.
+Proof.
+  intros (Hx & Hx1 & Hx2) (Hy & Hy1 & Hy2).
+  destruct (Nat.lt_trichotomy x y) as [Hlt|[Heq|Hgt]]; [exfalso|exact Heq|exfalso].
+  - specialize (Hy2 x ltac:(lia)). specialize (Hx1 y ltac:(lia)). congruence.
+  - specialize (Hx2 y ltac:(lia)). specialize (Hy1 x ltac:(lia)). congruence.
+Qed.
+
+Lemma first_argmin_unique raw a b x y : first_argmin raw a b x -> first_argmin raw a b y -> x = y.
+Proof.
+  intros (Hx & Hx1 & Hx2) (Hy & Hy1 & Hy2).
+  destruct (Nat.lt_trichotomy x y) as [Hlt|[Heq|Hgt]]; [exfalso|exact Heq|exfalso].
+  - specialize (Hy2 x ltac:(lia)). specialize (Hx1 y ltac:(lia)). congruence.
+  - specialize (Hx2 y ltac:(lia)). specialize (Hy1 x ltac:(lia)). congruence.
+Qed.
+
+Lemma first_arg_unique k raw a b x y : first_arg k raw a b x -> first_arg k raw a b y -> x = y.
+Proof. destruct k; [apply first_argmax_unique|apply first_argmin_unique]. Qed.
+
+Lemma allfin_slice l a b : allfin l -> allfin (slice l a b).
+Proof.
+  unfold allfin, slice. intros H.
+  rewrite <- (firstn_skipn a l) in H. apply Forall_app in H as (_ & H).
+  rewrite <- (firstn_skipn (b - a) (skipn a l)) in H. apply Forall_app in H as (H & _). exact H.
+Qed.
+
+Lemma argmax_slice_first raw a b j :
+  allfin raw -> a < b <= length raw -> argmax_first (slice raw a b) = Some j -> first_argmax raw a b (a + j).
+Proof.
+  intros Hfin Hab H.
+  destruct (argmax_first_spec _ _ (allfin_slice raw a b Hfin) H) as (Hj & H1 & H2).
+  rewrite slice_length in * by lia. unfold first_argmax, sample.
+  split; [lia|]. split.
+  - intros i Hi. specialize (H1 (i - a) ltac:(lia)).
+    rewrite !nth_slice in H1 by lia. replace (a + (i - a)) with i in H1 by lia. exact H1.
+  - intros i Hi. specialize (H2 (i - a) ltac:(lia)).
+    rewrite !nth_slice in H2 by lia. replace (a + (i - a)) with i in H2 by lia. exact H2.
+Qed.
+
+Lemma argmin_slice_first raw a b j :
+  allfin raw -> a < b <= length raw -> argmin_first (slice raw a b) = Some j -> first_argmin raw a b (a + j).
+Proof.
+  intros Hfin Hab H.
+  destruct (argmin_first_spec _ _ (allfin_slice raw a b Hfin) H) as (Hj & H1 & H2).
+  rewrite slice_length in * by lia. unfold first_argmin, sample.
+  split; [lia|]. split.
+  - intros i Hi. specialize (H1 (i - a) ltac:(lia)).
+    rewrite !nth_slice in H1 by lia. replace (a + (i - a)) with i in H1 by lia. exact H1.
+  - intros i Hi. specialize (H2 (i - a) ltac:(lia)).
+    rewrite !nth_slice in H2 by lia. replace (a + (i - a)) with i in H2 by lia. exact H2.
+Qed.
+
+Lemma argk_slice_first k raw a b j :
+  allfin raw -> a < b <= length raw -> argk k (slice raw a b) = Some j -> first_arg k raw a b (a + j).
+Proof. destruct k; [apply argmax_slice_first|apply argmin_slice_first]. Qed.
+
+Lemma hw_in_iff pos sigp k x :
+  length sigp = length pos -> allfin sigp ->
+  (In x (map (xof sigp) (filter (fun h => Bool.eqb (hk h) k) (pairs (events 0 pos)))) <->
+   exists a b, closed_halfwave pos k a b /\ first_arg k sigp a b x).
+Proof.
+  intros Hlen Hfin. rewrite in_map_iff. split.
+  - intros ([[a k0] b] & Hx & Hin). apply filter_In in Hin as (Hin & Hk).
+    unfold hk in Hk. cbn [fst snd] in Hk. apply eqb_prop in Hk. subst k0.
+    destruct (xof_range _ _ _ _ _ Hlen Hin) as (j & Hj & _ & Hxj).
+    destruct (pairs_bounds _ _ _ _ Hin) as (Hab & Hb).
+    exists a, b. split; [apply halfwave_iff, Hin|].
+    rewrite <- Hx, Hxj. apply argk_slice_first; [exact Hfin|lia|exact Hj].
+  - intros (a & b & Hhw & Hfa). apply halfwave_iff in Hhw.
+    destruct (xof_range _ _ _ _ _ Hlen Hhw) as (j & Hj & _ & Hxj).
+    destruct (pairs_bounds _ _ _ _ Hhw) as (Hab & Hb).
+    assert (Hfa' : first_arg k sigp a b (a + j)) by (apply argk_slice_first; [exact Hfin|lia|exact Hj]).
+    exists (a, k, b). split; [rewrite Hxj; exact (first_arg_unique _ _ _ _ _ _ Hfa' Hfa)|].
+    apply filter_In. split; [exact Hhw|]. unfold hk. cbn [fst snd]. apply eqb_reflx.
+Qed.
+
+(* C2 *)
+Theorem raw_peaks_iff pos sigp peaks troughs x :
+  raw_extrema pos sigp = Ok (peaks, troughs) -> length sigp = length pos ->
+  Forall (fun v => finite v = true) sigp ->
+  (In x peaks <-> exists a b, closed_halfwave pos true a b /\ first_argmax sigp a b x).
+Proof.
+  intros H Hlen Hfin. destruct (raw_extrema_ok_inv _ _ _ _ H Hlen) as (-> & _).
+  exact (hw_in_iff pos sigp true x Hlen Hfin).
+Qed.
+
+(* C3 *)
+Theorem raw_troughs_iff pos sigp peaks troughs x :
+  raw_extrema pos sigp = Ok (peaks, troughs) -> length sigp = length pos ->
+  Forall (fun v => finite v = true) sigp ->
+  (In x troughs <-> exists a b, closed_halfwave pos false a b /\ first_argmin sigp a b x).
+Proof.
+  intros H Hlen Hfin. destruct (raw_extrema_ok_inv _ _ _ _ H Hlen) as (_ & ->).
+  exact (hw_in_iff pos sigp false x Hlen Hfin).
+Qed.
+
+(* ------------------------------------------------------------------------- *)
+(* Error branches                                                             *)
+(* ------------------------------------------------------------------------- *)
+
+Lemma mapM_err {A B} (f : A -> result B) l e : mapM f l = Err e -> exists x, In x l /\ f x = Err e.
+Proof.
+  induction l as [|x t IH]; cbn [mapM]; [discriminate|].
+  destruct (f x) as [y|e'] eqn:Ex.
+  - destruct (mapM f t) as [ys|e'']; [discriminate|]. intros H; inversion H; subst e''.
+    destruct (IH eq_refl) as (z & Hz & Ez). exists z. split; [right; exact Hz|exact Ez].
+  - intros H; inversion H; subst e'. exists x. split; [left; reflexivity|exact Ex].
+Qed.
+
+Lemma extremum_after_err arg sigp others a e :
+  extremum_after arg sigp others a = Err e -> e = EOther \/ e = EValue.
+Proof.
+  unfold extremum_after. destruct (find _ others); [|intros H; inversion H; left; reflexivity].
+  destruct (arg _); [discriminate|]. intros H; inversion H; right; reflexivity.
+Qed.
+
+(* without any length hypothesis: Degenerate iff one kind of crossing is missing *)
+Theorem raw_extrema_degenerate_iff pos sigp :
+  raw_extrema pos sigp = Err EDegenerate <->
+  rises_of (events 0 pos) = [] \/ decays_of (events 0 pos) = [].
+Proof.
+  destruct (rises_of (events 0 pos)) as [|r rs] eqn:Er.
+  - unfold raw_extrema. cbv zeta. rewrite Er. split; [left; reflexivity|reflexivity].
+  - destruct (decays_of (events 0 pos)) as [|d ds] eqn:Ed.
+    + unfold raw_extrema. cbv zeta. rewrite Er, Ed. split; [right; reflexivity|reflexivity].
+    + split; [|intros [H|H]; discriminate]. intros H. exfalso.
+      rewrite raw_extrema_unfold in H by (rewrite ?Er, ?Ed; discriminate).
+      unfold raw_body in H.
+      destruct (if Nat.ltb (last (decays_of (events 0 pos)) 0) (last (rises_of (events 0 pos)) 0)
+                then (length (rises_of (events 0 pos)) - 1, length (decays_of (events 0 pos)))
+                else (length (rises_of (events 0 pos)), length (decays_of (events 0 pos)) - 1)) as [np nt].
+      destruct (mapM _ (firstn np _)) as [pk|e1] eqn:E1; cbn [bind] in H.
+      * destruct (mapM _ (firstn nt _)) as [tr|e2] eqn:E2; cbn [bind] in H; [discriminate|].
+        inversion H; subst e2. apply mapM_err in E2 as (z & _ & Ez).
+        apply extremum_after_err in Ez as [Ez|Ez]; discriminate.
+      * inversion H; subst e1. apply mapM_err in E1 as (z & _ & Ez).
+        apply extremum_after_err in Ez as [Ez|Ez]; discriminate.
+Qed.
+
+(* with matching lengths the only possible error is Degenerate: EOther / EValue are unreachable *)
+Theorem raw_extrema_err_only_degenerate pos sigp e :
+  length sigp = length pos -> raw_extrema pos sigp = Err e -> e = EDegenerate.
+Proof.
+  intros Hlen H.
+  destruct (rises_of (events 0 pos)) as [|r rs] eqn:Er.
+  { unfold raw_extrema in H. cbv zeta in H. rewrite Er in H. inversion H. reflexivity. }
+  destruct (decays_of (events 0 pos)) as [|d ds] eqn:Ed.
+  { unfold raw_extrema in H. cbv zeta in H. rewrite Er, Ed in H. inversion H. reflexivity. }
+  rewrite raw_extrema_eq in H; [discriminate|exact Hlen|rewrite Er; discriminate|rewrite Ed; discriminate].
+Qed.
+
+(* D3 *)
+Lemma trim_pair_err_iff firsts others :
+  trim_pair firsts others = Err EIndex <->
+  firsts = [] \/ others = [] \/ exists t, others = [t] /\ (t < headZ firsts)%Z.
+Proof.
+  unfold trim_pair. destruct firsts as [|f0 fs].
+  - split; [left; reflexivity|reflexivity].
+  - destruct others as [|o0 os].
+    + split; [right; left; reflexivity|reflexivity].
+    + cbn [headZ hd]. destruct (o0 <? f0)%Z eqn:E.
+      * cbn [tl]. destruct os as [|o1 os'].
+        -- split; [|reflexivity]. intros _. right. right. exists o0. split; [reflexivity|].
+           apply Z.ltb_lt, E.
+        -- split; [discriminate|]. intros [H|[H|(t & H & _)]]; discriminate.
+      * split; [discriminate|]. intros [H|[H|(t & H & Hlt)]]; try discriminate.
+        inversion H; subst. apply Z.ltb_ge in E. cbn [headZ hd] in Hlt. lia.
+Qed.
+
+Lemma trim_pair_err_only_index firsts others e : trim_pair firsts others = Err e -> e = EIndex.
+Proof.
+  unfold trim_pair. destruct firsts as [|f0 fs]; [intros H; inversion H; reflexivity|].
+  destruct others as [|o0 os]; [intros H; inversion H; reflexivity|].
+  destruct (if (o0 <? f0)%Z then tl (o0 :: os) else o0 :: os); [intros H; inversion H; reflexivity|discriminate].
+Qed.
+
+Theorem find_extrema_err_index x pk tr :
+  raw_extrema (x_pos x) (pad (x_padn x) (x_raw x)) = Ok (pk, tr) -> x_first x = FPeak ->
+  let P := unpad_filter (x_padn x) (Z.of_nat (length (x_raw x))) (x_boundary x) pk in
+  let T := unpad_filter (x_padn x) (Z.of_nat (length (x_raw x))) (x_boundary x) tr in
+  (find_extrema x = Err EIndex <-> P = [] \/ T = [] \/ exists t, T = [t] /\ (t < headZ P)%Z) /\
+  (forall e, find_extrema x = Err e -> e = EIndex).
+Proof.
+  intros Hraw Hf. cbv zeta. rewrite (find_extrema_unfold _ _ _ Hraw), Hf. cbn [trim].
+  split; [apply trim_pair_err_iff|apply trim_pair_err_only_index].
+Qed.
+
+Theorem find_extrema_err_index_trough x pk tr :
+  raw_extrema (x_pos x) (pad (x_padn x) (x_raw x)) = Ok (pk, tr) -> x_first x = FTrough ->
+  let P := unpad_filter (x_padn x) (Z.of_nat (length (x_raw x))) (x_boundary x) pk in
+  let T := unpad_filter (x_padn x) (Z.of_nat (length (x_raw x))) (x_boundary x) tr in
+  (find_extrema x = Err EIndex <-> T = [] \/ P = [] \/ exists p, P = [p] /\ (p < headZ T)%Z) /\
+  (forall e, find_extrema x = Err e -> e = EIndex).
+Proof.
+  intros Hraw Hf. cbv zeta. rewrite (find_extrema_unfold _ _ _ Hraw), Hf. cbn [trim].
+  rewrite <- trim_pair_err_iff.
+  destruct (trim_pair _ _) as [r|e0] eqn:E; cbn [bind].
+  - split; [split; discriminate|discriminate].
+  - apply trim_pair_err_only_index in E. subst e0.
+    split; [split; reflexivity|]. intros e H; inversion H; reflexivity.
 Qed.
